@@ -36,6 +36,10 @@ class HttpShard(ShardCMC):
         self._session = session
         self.base_url = base_url.rstrip("/") + "/"
         super().__init__(shard_key, shard_spec)
+        # A HTTP shard is read-only: the minishards found in the shard index
+        # (which populate_minishard_dict stores in ro_minishard_dict) are the
+        # ones that fetch_cmc_chunk must look up.
+        self.minishard_dict = self.ro_minishard_dict
         self.populate_minishard_dict()
         assert self.can_read_cmc
 
